@@ -54,6 +54,7 @@ OUT_OF_REACH = ['X.509 host certificates (no pyOpenSSL)']
 REQUIRED = ['trust_cases', 'accept_expected', 'reject_expected',
             'cert_cases', 'cert_boundary_cases', 'revoked_cases',
             'hashed_cases', 'port_cases', 'no_credentials_sent_checked',
+            'callback_cases',
             'lie_cases']
 BUDGET_S = {'quick': 300, 'thorough': 3400}
 CASE_TIMEOUT_S = 60
@@ -119,7 +120,7 @@ def _lookup(entries, host, addr, port):
     return t, c, r
 
 
-def model(entries, host, addr, port, cred):
+def model(entries, host, addr, port, cred, cb=None):
     """Returns (accept: bool, reason) or (None, why) if unjudged"""
 
     p = port if port != 22 else None
@@ -129,6 +130,12 @@ def model(entries, host, addr, port, cred):
         if r and (t2 or c2):
             return None, 'ported lookup matched only revoked lines'
         t, c, r = t2, c2, r2
+
+    if cb:
+        # validate_host_public_key / validate_host_ca_key only widen what is
+        # trusted; revocation and every certificate check still apply
+        t = t | set(cb['keys'])
+        c = c | set(cb['cas'])
 
     if cred['kind'] == 'key':
         k = cred['key']
@@ -272,8 +279,18 @@ def gen_cases(tier, seed):
                 entries.insert(rng.randrange(len(entries) + 1),
                                ['', _patterns_for(rng, host, addr, port,
                                                   True), cred['key']])
+        cb = None
+        if rng.random() < 0.3:
+            # the application vouches for some keys / CAs itself
+            cb = {'keys': rng.sample([0, 1, 2, 3], rng.choice([0, 1, 2])),
+                  'cas': rng.sample(['CA0', 'CA1'], rng.choice([0, 1, 1, 2]))}
+            if rng.random() < 0.5:
+                # ... and known_hosts says nothing about this credential
+                entries = [e for e in entries
+                           if e[2] not in (cred['key'], cred.get('ca'))]
         cases.append({'kind': 'trust', 'host': host, 'addr': addr,
                       'port': port, 'cred': cred, 'entries': entries,
+                      'cb': cb,
                       'chunk': rng.choice(['all', 'record', 'random']),
                       'cseed': rng.randrange(1 << 30)})
 
@@ -373,10 +390,32 @@ def _run_trust(case, mon, viol):
             try:
                 text = _kh_text(case['entries'])
                 kh = asyncssh.import_known_hosts(text)
+                extra = {}
+                cb = case.get('cb')
+                if cb:
+                    from asyncssh.public_key import \
+                        get_default_public_key_algs, \
+                        get_default_certificate_algs
+                    okk = [pool[k].public_data for k in cb['keys']]
+                    okc = [pool[k].public_data for k in cb['cas']]
+
+                    class Cli(asyncssh.SSHClient):
+                        def validate_host_public_key(self, h, a, p, key):
+                            return key.public_data in okk
+
+                        def validate_host_ca_key(self, h, a, p, key):
+                            return key.public_data in okc
+
+                    extra['client_factory'] = Cli
+                    # offer every algorithm, whatever known_hosts lists
+                    extra['server_host_key_algs'] = [
+                        a.decode() for a in
+                        list(get_default_certificate_algs()) +
+                        list(get_default_public_key_algs())]
                 ct = asyncio.ensure_future(asyncssh.connect(
                     case['host'], case['port'], tunnel=env.wire,
                     known_hosts=kh, username='user', client_keys=None,
-                    agent_path=None, config=None))
+                    agent_path=None, config=None, **extra))
                 env.san.harness_tasks.add(ct)
                 await env.settle()
                 if not ct.done():
@@ -391,7 +430,9 @@ def _run_trust(case, mon, viol):
 
                 mcred = dict(cred)
                 exp, why = model(case['entries'], case['host'], case['addr'],
-                                 case['port'], mcred)
+                                 case['port'], mcred, case.get('cb'))
+                if case.get('cb'):
+                    mon['callback_cases'] += 1
                 info['model'] = (exp, why)
                 if exp is None:
                     return
